@@ -97,8 +97,18 @@ def wrapTo (k : IntKind) (i : Int) : Int :=
 def f64ToI64 (i : Int) : Int :=
   if -9223372036854775808 ≤ i ∧ i ≤ 9223372036854775807 then i else -9223372036854775808
 
-/-- toReflectValue's numeric switch for an integer target kind: toInt8 … toUint64 (runtime.go:1009-1196).
-    `none` = not modelled (non-integral float into an integer kind: not a round trip). -/
+/-- int64(f) for a finite NON-integral double given by its bit pattern: truncation toward zero
+    (sign, 11-bit exponent, 52-bit fraction; value = sig · 2^(e-1075)). -/
+def truncFrac (bits : Nat) : Int :=
+  let neg := bits / 2 ^ 63 % 2 = 1
+  let e := bits / 2 ^ 52 % 2048
+  let m := bits % 2 ^ 52
+  let sig : Nat := if e = 0 then m else m + 2 ^ 52
+  let mag : Nat := if e < 1023 then 0 else if e ≤ 1075 then sig / 2 ^ (1075 - e) else sig * 2 ^ (e - 1075)
+  if neg then - Int.ofNat mag else Int.ofNat mag
+
+/-- toReflectValue's numeric switch for an integer target kind: toInt8 … toUint64 (runtime.go:1009-1196):
+    valueInt → Go conversion (two's complement truncation); valueFloat → int64(f) first (NaN / ±Inf → 0). -/
 def exportToInt (k : IntKind) : JsNum → Option Int
   | .int i => some (wrapTo k i)
   | .flt (.intval i) => some (wrapTo k (f64ToI64 i))
@@ -106,7 +116,7 @@ def exportToInt (k : IntKind) : JsNum → Option Int
   | .flt .nan => some 0
   | .flt .posInf => some 0
   | .flt .negInf => some 0
-  | .flt (.frac _) => none
+  | .flt (.frac b) => some (wrapTo k (f64ToI64 (truncFrac b)))
 
 /-- v.ToFloat() (target kind float64). -/
 def exportToF64 : JsNum → Flt
